@@ -220,7 +220,8 @@ def preprocess_ts(
             filter_populations=filter_populations,
             filter_individuals=filter_individuals,
             filter_sites=filter_sites,
-            delete_intervals=delete_intervals,
+            # may have been passed as a numpy array, which cannot be JSON-encoded
+            delete_intervals=np.asarray(delete_intervals).tolist(),
         )
     return tables.tree_sequence()
 
